@@ -477,7 +477,18 @@ func c13Render(c *Ctx, p *Prog) {
 					return false, false
 				}
 				mk := func() *e6Interp {
-					return &e6Interp{PureCall: func(f *types.Func) bool { return true }, Decide: decide}
+					return &e6Interp{PureCall: func(f *types.Func) bool { return true }, Decide: decide, Inline: func(f *ssa.Function) bool {
+						// a formatting helper of the package over (centre, lo, hi)
+						if f.Pkg != fn.Pkg || f.Blocks == nil || f.Signature.Recv() != nil || len(naturalLoops(f)) > 0 || len(f.Params) == 0 {
+							return false
+						}
+						for _, prm := range f.Params {
+							if !isFloat(prm.Type()) {
+								return false
+							}
+						}
+						return true
+					}}
 				}
 				outs, why := e6Enumerate(mk, fn.Blocks[0], nil, nil, 1024)
 				if why != "" {
